@@ -21,6 +21,7 @@ type Twin struct {
 	dir  string
 	bins map[string]string // package import path -> test binary
 	t    *Target
+	env  []string
 }
 
 type NativeResult struct {
@@ -144,6 +145,17 @@ func buildTwin(t *Target, fns []*ssa.Function, outDir string) (*Twin, error) {
 		}
 		tw.bins[j.pkg.Pkg.Path()] = bin
 	}
+	if t.kind == "cmd" {
+		// the REAL command, built from the working tree without any overlay
+		bin := filepath.Join(outDir, "json-patch-real")
+		cmd := exec.Command("go", "build", "-o", bin, "./cmd/json-patch")
+		cmd.Dir = t.modDir
+		cmd.Env = append(os.Environ(), goEnv...)
+		if out, err := cmd.CombinedOutput(); err != nil {
+			return nil, fmt.Errorf("building the command failed: %v\n%s", err, out)
+		}
+		tw.env = append(tw.env, "VX_CMD_BIN="+bin)
+	}
 	return tw, nil
 }
 
@@ -174,7 +186,7 @@ func (tw *Twin) run(pkgPath string, rf *ReplayFile, replayPath string) (*NativeR
 	resPath := replayPath + ".result"
 	defer os.Remove(resPath)
 	cmd := exec.Command(bin)
-	cmd.Env = append(os.Environ(), "VX_REPLAY="+replayPath, "VX_RESULT="+resPath)
+	cmd.Env = append(append(os.Environ(), "VX_REPLAY="+replayPath, "VX_RESULT="+resPath), tw.env...)
 	cmd.Dir = tw.dir
 	done := make(chan error, 1)
 	var out []byte
